@@ -30,85 +30,49 @@ let get_facts x = match lst x with
 let strip_action_lines (s : string) : string =
   SS.concat "\n" (SL.filter (fun l -> not (SS.length l >= 3 && SS.sub l 0 3 = "\t\t\t")) (SS.split_on_char '\n' s))
 
-(* ---- reading the .y file back (independent of the model) ---- *)
-type parsed = { p_starts : (string * bool) list; p_precs : (string * string list) list; p_tokens : string list;
-                p_groups : (string * string list) list (* name, bodies *) }
-
-let words s = SL.filter (fun w -> w <> "") (SS.split_on_char ' ' s)
-let starts_with p s = SS.length s >= SS.length p && SS.sub s 0 (SS.length p) = p
-
-let parse_y (text : string) : parsed =
-  let lines = SS.split_on_char '\n' text in
-  let starts = ref [] and precs = ref [] and tokens = ref [] and groups = ref [] in
-  let section = ref 0 in
-  let cur = ref None in
-  SL.iter (fun l ->
-    if l = "%%" then incr section
-    else if !section = 0 then begin
-      if starts_with "%start " l then begin
-        let ws = words l in
-        starts := (SL.nth ws 1, SL.mem "no-eoi" ws) :: !starts
-      end else if starts_with "%token " l then tokens := SL.nth (words l) 1 :: !tokens
-      else if starts_with "%left" l || starts_with "%right" l || starts_with "%nonassoc" l then begin
-        let ws = words l in
-        precs := (SS.sub (SL.hd ws) 1 (SS.length (SL.hd ws) - 1), SL.tl ws) :: !precs
-      end
-    end else if !section = 1 then begin
-      if starts_with "\t\t\t" l || starts_with "//" l || l = "" then ()
-      else if l = ";" then (match !cur with Some (n, bs) -> groups := (n, SL.rev bs) :: !groups; cur := None | None -> ())
-      else if starts_with "  " l || starts_with "| " l then
-        (match !cur with Some (n, bs) -> cur := Some (n, SS.sub l 2 (SS.length l - 2) :: bs) | None -> failwith "body outside a rule")
-      else if SS.length l > 2 && SS.sub l (SS.length l - 2) 2 = " :" then cur := Some (SS.sub l 0 (SS.length l - 2), [])
-      else failwith ("unexpected line: " ^ l)
-    end) lines;
-  { p_starts = SL.rev !starts; p_precs = SL.rev !precs; p_tokens = SL.rev !tokens; p_groups = SL.rev !groups }
-
-let bison_verdict (f : facts) (text : string) : string =
-  match (try Some (parse_y text) with Failure _ -> None) with
-  | None -> "bad:y-file-unreadable"
-  | Some p ->
-    let name s = Stdlib.fst (SL.nth f.syms s) and id s = Stdlib.snd (SL.nth f.syms s) in
-    let sym_of_word w =
-      (* terminals are written by ID, nonterminals by name *)
-      let rec go i = if i >= SL.length f.syms then -1
-        else if (i < f.tokens && id i = w) || (i >= f.tokens && name i = w) then i else go (i + 1) in go 0 in
-    let tok_by_id t = (let rec go i = if i >= f.tokens then -1 else if id i = t then i else go (i + 1) in go 0) in
-    let parse_body b =
-      let ws = SL.filter (fun w -> not (starts_with "/*." w) && w <> "%empty") (words b) in
-      let rec go ws acc = match ws with
-        | "%prec" :: t :: _ -> (SL.rev acc, tok_by_id t)
-        | w :: rest -> go rest (sym_of_word w :: acc)
-        | [] -> (SL.rev acc, 0) in
-      go ws [] in
+(* ---- reading the .y file back: the reader is BisonRead.read_file extracted from Coq (lines -> groups ->
+   words -> symbols), proved exact on the model's rendering for grammars with bison_wf && decls_wf
+   (Props/C30.v: C30_read_back_file); it is independent of the model of the exporter ---- *)
+let bison_verdict (g : Bison.bgrammar) (f : facts) (text : string) : string =
+  if not (BisonRead.bison_wf g && BisonRead.decls_wf g) then "bad:grammar-outside-the-domain-of-the-proved-reader"
+  else match BisonRead.read_file g (string_to_bytes text) with
+  | None -> "bad:y-file-unreadable-or-unknown-symbol"
+  | Some y ->
+    let ints l = SL.map int_of_z l in
+    let p_starts = SL.map (fun (s, e) -> (int_of_z s, e)) y.BisonRead.y_starts in
+    let p_precs = SL.map (fun (a, ts) -> (int_of_z a, ints ts)) y.BisonRead.y_precs in
+    let p_tokens = ints y.BisonRead.y_tokens in
+    let p_groups = SL.map (fun (x, rs) ->
+        (int_of_z x, SL.map (fun (rhs, p) -> (ints rhs, match p with Some t -> int_of_z t | None -> 0)) rs)) y.BisonRead.y_groups in
+    let name s = Stdlib.fst (SL.nth f.syms s) in
     (* expected: rules grouped by left-hand side in order of first appearance *)
     let order = SL.fold_left (fun acc r -> if SL.mem r.lhs acc then acc else acc @ [r.lhs]) [] f.rules in
     let expected = SL.map (fun x -> (x, SL.filter (fun r -> r.lhs = x) f.rules)) order in
     let is_midrule s =
       let n = name s in
       SS.contains n '$' && (let rs = SL.filter (fun r -> r.lhs = s) f.rules in rs <> [] && SL.for_all (fun r -> r.rhs = [] && r.code) rs) in
-    if SL.map (fun (n, e) -> (n, e)) p.p_starts <> SL.map (fun (nt, ne) -> (name (f.tokens + nt), ne)) f.inputs then "bad:start-symbols-differ"
-    else if p.p_precs <> SL.map (fun (a, ts) -> (SL.nth ["left"; "right"; "nonassoc"] a, SL.map id ts)) f.precs then "bad:precedence-declarations-differ"
+    if p_starts <> SL.map (fun (nt, ne) -> (f.tokens + nt, ne)) f.inputs then "bad:start-symbols-differ"
+    else if p_precs <> f.precs then "bad:precedence-declarations-differ"
     else begin
       let in_prec = SL.concat_map Stdlib.snd f.precs in
-      let want_tokens = SL.filter_map (fun t -> if t > 0 && not (SL.mem t in_prec) then Some (id t) else None) (SL.init f.tokens (fun i -> i)) in
-      if SL.sort compare p.p_tokens <> SL.sort compare want_tokens then "bad:token-declarations-differ"
-      else if SL.map Stdlib.fst p.p_groups <> SL.map (fun (x, _) -> name x) expected then "bad:nonterminal-order-or-set-differs"
+      let want_tokens = SL.filter (fun t -> t > 0 && not (SL.mem t in_prec)) (SL.init f.tokens (fun i -> i)) in
+      if SL.sort compare p_tokens <> SL.sort compare want_tokens then "bad:token-declarations-differ"
+      else if SL.map Stdlib.fst p_groups <> order then "bad:nonterminal-order-or-set-differs"
       else begin
         let bad = ref "ok" in
-        SL.iter2 (fun (n, bodies) (x, rs) ->
+        SL.iter2 (fun (x, bodies) (_, rs) ->
+          let n = name x in
           if !bad = "ok" then begin
             if SL.length bodies <> SL.length rs then bad := "bad:number-of-rules-differs(" ^ n ^ ")"
-            else SL.iter2 (fun b r ->
+            else SL.iter2 (fun (rhs, prec) r ->
               if !bad = "ok" then begin
-                let (rhs, prec) = if SL.mem_assoc x f.las then ([], 0) else parse_body b in
-                if SL.mem (-1) rhs then bad := "bad:unknown-symbol-in-rule(" ^ n ^ ")"
-                else if prec <> r.prec then bad := "bad:rule-precedence-differs(" ^ n ^ ")"
+                if prec <> r.prec then bad := "bad:rule-precedence-differs(" ^ n ^ ")"
                 else if rhs <> r.rhs then begin
                   if rhs = SL.filter (fun s -> not (is_midrule s)) r.rhs then bad := "bad:mid-rule-nonterminal-missing-from-exported-rhs"
                   else bad := "bad:rule-rhs-differs(" ^ n ^ ")"
                 end
               end) bodies rs
-          end) p.p_groups expected;
+          end) p_groups expected;
         !bad
       end
     end
@@ -125,4 +89,4 @@ let () = Reg.register "c30.bison" (fun inp out ->
   let model = match Bison.bison_text g with
     | Some t -> put_bytes t
     | None -> A "abort" in
-  (model, bison_verdict f text))
+  (model, bison_verdict g f text))
